@@ -1,6 +1,6 @@
 (* C14 - round-trip lemmas for the serialisation models of Ser/SerModel.v. *)
 From Coq Require Import List NArith ZArith Znumtheory Zpow_facts Arith Bool Lia ZifyN ZifyNat ZifyBool.
-From GmsmVerif Require Import Lib.Outcome Ser.SerBytes Ser.SerBytesProofs Ser.SerModel Ser.SerSpec.
+From GmsmVerif Require Import Lib.Outcome Ser.SerBytes Ser.SerBytesProofs Ser.SerDER Ser.SerModel Ser.SerSpec Ser.Fermat.
 Import ListNotations.
 Open Scope N_scope.
 
@@ -86,7 +86,6 @@ Section CompressProofs.
   Variables p a b : N.
   Hypothesis Hprime : prime (Z.of_N p).
   Hypothesis H34 : p mod 4 = 3.
-  Hypothesis Hfermat : forall y, 0 < y < p -> y ^ (p - 1) mod p = 1.     (* Fermat's little theorem for p *)
   Hypothesis Hp256 : p <= 2 ^ 256.
 
   Lemma mod_sqrt_of_square : forall y, y < p ->
@@ -99,8 +98,7 @@ Section CompressProofs.
     assert (A2 : (0 <= Z.of_N y < Z.of_N p)%Z) by lia.
     assert (A3 : (Z.of_N y = 0 \/ Z.of_N y ^ (Z.of_N p - 1) mod Z.of_N p = 1)%Z).
     { destruct (N.eq_dec y 0) as [->|Hn]; [left; reflexivity|right].
-      pose proof (Hfermat y ltac:(lia)) as F.
-      apply (f_equal Z.of_N) in F. rewrite N2Z.inj_mod, N2Z.inj_pow, N2Z.inj_sub in F by lia. exact F. }
+      apply fermat_little_Z; [exact Hprime|lia]. }
     specialize (S A1 A2 A3). cbv zeta in S. destruct S as [S1 S2].
     set (r := pow_mod ((y * y) mod p) ((p + 1) / 4) p).
     assert (Rz : (Z.of_N r = ((Z.of_N y * Z.of_N y) mod Z.of_N p) ^ ((Z.of_N p + 1) / 4) mod Z.of_N p)%Z).
@@ -160,16 +158,15 @@ Proof.
 Qed.
 
 (* ---------- ASN.1 signature --------------------------------------------------------------------------------- *)
-Lemma read_tlv_tlv0 : forall tag c, read_tlv tag (tlv tag c) = Some (c, []).
-Proof. intros. rewrite <- (app_nil_r (tlv tag c)). apply read_tlv_tlv. Qed.
-
-Lemma read_int_der_int0 : forall n, read_int (der_int n) = Some (inr n, []).
-Proof. intros. rewrite <- (app_nil_r (der_int n)). apply read_int_der_int. Qed.
-
-Lemma sig_roundtrip : forall r s, SignDataToSignDigit (SignDigitToSignData r s) = Ok (r, s).
+(* all bounds below are in bytes of contents: the DER reader of SM2/DER.v (as Go's) handles lengths below 2^23 *)
+Lemma sig_roundtrip : forall r s,
+  (Z.of_nat (length (Bytes r)) < 2 ^ 21)%Z -> (Z.of_nat (length (Bytes s)) < 2 ^ 21)%Z ->
+  SignDataToSignDigit (SignDigitToSignData r s) = Ok (r, s).
 Proof.
-  intros. unfold SignDataToSignDigit, SignDigitToSignData.
-  rewrite read_tlv_tlv0, read_int_der_int, read_int_der_int0. reflexivity.
+  intros r s Hr Hs. unfold SignDataToSignDigit, SignDigitToSignData.
+  pose proof (der_int_len_le r ltac:(lia)). pose proof (der_int_len_le s ltac:(lia)).
+  rewrite read_tlv_tlv0 by (try reflexivity; rewrite app_length; lia).
+  rewrite read_int_der_int by lia. rewrite read_int_der_int0 by lia. reflexivity.
 Qed.
 
 (* ---------- ASN.1 ciphertext -------------------------------------------------------------------------------- *)
@@ -205,18 +202,32 @@ Proof.
   apply Nat.ltb_ge. apply Bytes_length. rewrite <- L. apply of_be_bound. auto.
 Qed.
 
-Lemma cipher_roundtrip : forall data, bytes_ok data -> (97 <= length data)%nat -> hd 0 data = 4 ->
+Lemma Bytes_len32 : forall l, bytes_ok l -> length l = 32%nat -> (length (Bytes (of_be l)) <= 32)%nat.
+Proof. intros l K L. apply Bytes_length. rewrite <- L. apply of_be_bound. auto. Qed.
+
+Lemma cipher_roundtrip : forall data, bytes_ok data -> (97 <= length data)%nat -> (Z.of_nat (length data) < 2 ^ 22)%Z ->
+  hd 0 data = 4 ->
   exists der, CipherMarshal data = Ok der /\ CipherUnmarshal der = Ok data.
 Proof.
-  intros data K L H4. unfold CipherMarshal.
+  intros data K L Lmax H4. unfold CipherMarshal.
   assert ((length data <? 97)%nat = false) as -> by (apply Nat.ltb_ge; auto).
   eexists. split; [reflexivity|].
   destruct data as [|t d]; [simpl in L; lia|]. simpl in H4. subst t. cbn [tl].
-  inversion K; subst. rename H2 into Kd. simpl in L.
-  unfold CipherUnmarshal. rewrite read_tlv_tlv0, read_int_der_int, read_int_der_int, read_tlv_tlv, read_tlv_tlv0.
+  inversion K; subst. rename H2 into Kd. simpl in L. cbn [length] in Lmax.
   assert (L1 : length (firstn 32 d) = 32%nat) by (rewrite firstn_length; lia).
   assert (L2 : length (firstn 32 (skipn 32 d)) = 32%nat) by (rewrite firstn_length, skipn_length; lia).
   assert (L3 : length (firstn 32 (skipn 64 d)) = 32%nat) by (rewrite firstn_length, skipn_length; lia).
+  assert (L4 : (length (skipn 96 d) <= length d)%nat) by (rewrite skipn_length; lia).
+  pose proof (Bytes_len32 _ (bytes_ok_firstn 32 d Kd) L1) as Bx.
+  pose proof (Bytes_len32 _ (bytes_ok_firstn 32 _ (bytes_ok_skipn 32 d Kd)) L2) as By.
+  pose proof (der_int_len_le (of_be (firstn 32 d)) ltac:(lia)) as Dx.
+  pose proof (der_int_len_le (of_be (firstn 32 (skipn 32 d))) ltac:(lia)) as Dy.
+  pose proof (tlv_len_le TAG_OCTETS (firstn 32 (skipn 64 d)) ltac:(lia)) as Th.
+  pose proof (tlv_len_le TAG_OCTETS (skipn 96 d) ltac:(lia)) as Tc.
+  unfold CipherUnmarshal.
+  rewrite read_tlv_tlv0 by (try reflexivity; rewrite !app_length; lia).
+  rewrite read_int_der_int by lia. rewrite read_int_der_int by lia.
+  rewrite read_tlv_tlv by (try reflexivity; lia). rewrite read_tlv_tlv0 by (try reflexivity; lia).
   destruct (field32 (firstn 32 d)) as [A1 B1]; [apply bytes_ok_firstn; auto|auto|].
   destruct (field32 (firstn 32 (skipn 32 d))) as [A2 B2]; [apply bytes_ok_firstn, bytes_ok_skipn; auto|auto|].
   rewrite A1, A2, B1, B2, L3. cbn [orb Nat.eqb negb].
@@ -250,10 +261,32 @@ Section Pkcs8Proofs.
     = let '(X, Y) := base_mult d in Ok (d, X, Y).
   Proof.
     intros d x y tail H. unfold ParsePKCS8UnecryptedPrivateKey, MarshalSm2UnecryptedPrivateKey.
-    rewrite read_tlv_tlv, read_int_der_int, read_tlv_tlv.
+    assert (Bd : (length (Bytes d) <= 32)%nat) by (apply Bytes_length; pose proof sm2N_bound; lia).
+    assert (B0 : length (Bytes 0) = 0%nat) by reflexivity.
+    assert (B1 : length (Bytes 1) = 1%nat) by reflexivity.
+    pose proof (der_int_len_le 0 ltac:(rewrite B0; lia)) as D0. rewrite B0 in D0.
+    pose proof (der_int_len_le 1 ltac:(rewrite B1; lia)) as D1. rewrite B1 in D1.
+    assert (Lp : length (point_bytes x y) = 65%nat) by (unfold point_bytes; cbn [length]; rewrite app_length, !length_to_be; reflexivity).
+    assert (Lo1 : length OID_EC_PUBKEY = 9%nat) by reflexivity.
+    assert (Lo2 : length OID_SM2_CURVE = 10%nat) by reflexivity.
+    pose proof (tlv_len_le TAG_OCTETS (Bytes d) ltac:(lia)) as T1.
+    pose proof (tlv_len_le 160 OID_SM2_CURVE ltac:(rewrite Lo2; lia)) as T2.
+    pose proof (tlv_len_le 3 (0 :: point_bytes x y) ltac:(cbn [length]; rewrite Lp; lia)) as T3. cbn [length] in T3. rewrite Lp in T3.
+    pose proof (tlv_len_le 161 (tlv 3 (0 :: point_bytes x y)) ltac:(lia)) as T4.
+    set (inner := der_int 1 ++ tlv TAG_OCTETS (Bytes d) ++ tlv 160 OID_SM2_CURVE ++ tlv 161 (tlv 3 (0 :: point_bytes x y))).
+    assert (Li : (length inner <= 200)%nat) by (unfold inner; rewrite !app_length; lia).
+    pose proof (tlv_len_le TAG_SEQ inner ltac:(lia)) as T5.
+    pose proof (tlv_len_le TAG_OCTETS (tlv TAG_SEQ inner) ltac:(lia)) as T6.
+    pose proof (tlv_len_le TAG_SEQ (OID_EC_PUBKEY ++ OID_SM2_CURVE) ltac:(rewrite app_length; lia)) as T7.
+    rewrite app_length in T7.
+    rewrite read_tlv_tlv by (try reflexivity; unfold sm2PrivateKey_der; fold inner; rewrite !app_length; lia).
+    rewrite read_int_der_int by (rewrite B0; lia).
+    rewrite read_tlv_tlv by (try reflexivity; rewrite app_length; lia).
     change (starts_with OID_EC_PUBKEY (OID_EC_PUBKEY ++ OID_SM2_CURVE)) with true. cbn [negb].
-    rewrite read_tlv_tlv0. unfold sm2PrivateKey_der.
-    rewrite read_tlv_tlv0, read_int_der_int, read_tlv_tlv.
+    unfold sm2PrivateKey_der. fold inner.
+    rewrite read_tlv_tlv0 by (try reflexivity; lia).
+    rewrite read_tlv_tlv0 by (try reflexivity; lia). unfold inner.
+    rewrite read_int_der_int by (rewrite B1; lia). rewrite read_tlv_tlv by (try reflexivity; lia).
     apply parse_sm2_private_key. auto.
   Qed.
 
@@ -368,3 +401,89 @@ Qed.
 Lemma GMX509KeyPairs_iff : forall sc sk ec ek,
   GMX509KeyPairs sc sk ec ek = true <-> sm2_pair sc sk /\ sm2_pair ec ek.
 Proof. intros. unfold GMX509KeyPairs. rewrite andb_true_iff, !matchKeyCert_iff. tauto. Qed.
+
+(* ---------- PEM block selection -------------------------------------------------------------------------------- *)
+Lemma getCert_first : forall f, match getCert f with
+                               | Some (c :: _) => first_cert f = Some (certOf c)
+                               | Some [] => False
+                               | None => first_cert f = None end.
+Proof.
+  intros f. unfold getCert, first_cert.
+  destruct (filter (fun b => match fst b with LCert => true | _ => false end) f) as [|[l c] r]; simpl; auto.
+Qed.
+
+Lemma parse_readable : forall kc, match readable_key kc with Some k => parsePrivateKey kc = k | None => parsePrivateKey kc = KBad end.
+Proof. destruct kc; reflexivity. Qed.
+
+Lemma key_matches_not_bad : forall c, ~ key_matches c KBad.
+Proof. destruct c; simpl; tauto. Qed.
+
+Lemma pem_iff_generic : forall (L : certk -> keyk -> bool) (M : certk -> keyk -> Prop) cf kf,
+  (forall c k, L c k = true <-> M c k) -> (forall c, ~ M c KBad) ->
+  (match getCert cf, getKey kf with Some (c :: _), Some k => L (certOf c) (parsePrivateKey k) | _, _ => false end = true
+   <-> exists c kc k, first_cert cf = Some c /\ first_key kf = Some kc /\ readable_key kc = Some k /\ M c k).
+Proof.
+  intros L M cf kf HL HB. pose proof (getCert_first cf) as Hc. unfold first_key.
+  destruct (getCert cf) as [[|c0 r]|]; [contradiction| |].
+  - destruct (getKey kf) as [kc|].
+    + pose proof (parse_readable kc) as Hp. rewrite HL. split.
+      * intros Hm. destruct (readable_key kc) as [k|] eqn:Er.
+        -- exists (certOf c0), kc, k. rewrite Hp in Hm. auto.
+        -- rewrite Hp in Hm. exfalso. exact (HB _ Hm).
+      * intros (c & kc' & k & E1 & E2 & E3 & Hm). inversion E2; subst kc'. rewrite E3 in Hp. rewrite Hp.
+        rewrite Hc in E1. inversion E1; subst. exact Hm.
+    + split; [discriminate|]. intros (c & kc & k & _ & E & _). discriminate.
+  - split; [discriminate|]. intros (c & kc & k & E & _). congruence.
+Qed.
+
+Lemma sm2_pair_not_bad : forall c, ~ sm2_pair c KBad.
+Proof. intros c (x & y & _ & E). discriminate. Qed.
+
+Lemma GMX509KeyPairs_pem_iff : forall cf kf ecf ekf,
+  GMX509KeyPairs_pem cf kf ecf ekf = true <-> pem_sm2_pair cf kf /\ pem_sm2_pair ecf ekf.
+Proof.
+  intros cf kf ecf ekf.
+  pose proof (pem_iff_generic matchKeyCert sm2_pair cf kf matchKeyCert_iff sm2_pair_not_bad) as H1.
+  pose proof (pem_iff_generic matchKeyCert sm2_pair ecf ekf matchKeyCert_iff sm2_pair_not_bad) as H2.
+  unfold pem_sm2_pair. rewrite <- H1, <- H2. unfold GMX509KeyPairs_pem, GMX509KeyPairs.
+  destruct (getCert cf) as [[|c r]|]; destruct (getCert ecf) as [[|ec er]|]; destruct (getKey kf); destruct (getKey ekf);
+    try (split; [discriminate|intros [A B]; discriminate]).
+  apply andb_true_iff.
+Qed.
+
+Lemma pem_iff_at : forall (L : certk -> keyk -> bool) cf kf c (Q : keyk -> Prop),
+  first_cert cf = Some c -> (forall k, L c k = true <-> Q k) -> ~ Q KBad ->
+  (match getCert cf, getKey kf with Some (c0 :: _), Some k => L (certOf c0) (parsePrivateKey k) | _, _ => false end = true
+   <-> exists kc k, first_key kf = Some kc /\ readable_key kc = Some k /\ Q k).
+Proof.
+  intros L cf kf c Q Hf HL HB. pose proof (getCert_first cf) as Hc. unfold first_key.
+  destruct (getCert cf) as [[|c0 r]|]; [contradiction| |congruence].
+  rewrite Hc in Hf. inversion Hf; subst c.
+  destruct (getKey kf) as [kc|].
+  - pose proof (parse_readable kc) as Hp. rewrite HL. split.
+    + intros Hm. destruct (readable_key kc) as [k|] eqn:Er; rewrite Hp in Hm; [eauto|contradiction].
+    + intros (kc' & k & E2 & E3 & Hm). inversion E2; subst kc'. rewrite E3 in Hp. rewrite Hp. exact Hm.
+  - split; [discriminate|]. intros (kc & k & E & _). discriminate.
+Qed.
+
+Lemma sm2_leaf_pem : forall cf kf x y, first_cert cf = Some (CEc O x y) ->
+  (X509KeyPair_pem cf kf = true <-> exists kc, first_key kf = Some kc /\ readable_key kc = Some (KSm2 x y))
+  /\ (GMX509KeyPairsSingle_pem cf kf = true <-> exists kc, first_key kf = Some kc /\ readable_key kc = Some (KSm2 x y)).
+Proof.
+  intros cf kf x y Hf.
+  assert (HQ : forall k, key_matches (CEc O x y) k <-> k = KSm2 x y).
+  { intros k. destruct k as [n|cu x' y'|x' y'|]; simpl; split; intros H; try discriminate; try tauto.
+    - destruct H as (_ & -> & ->). reflexivity.
+    - inversion H. auto. }
+  split.
+  - unfold X509KeyPair_pem.
+    rewrite (pem_iff_at X509KeyPair cf kf (CEc O x y) (fun k => k = KSm2 x y) Hf).
+    + split; [intros (kc & k & A & B & ->); eauto|intros (kc & A & B); eauto].
+    + intros k. rewrite X509KeyPair_sm2_iff. apply HQ.
+    + discriminate.
+  - unfold GMX509KeyPairsSingle_pem.
+    rewrite (pem_iff_at GMX509KeyPairsSingle cf kf (CEc O x y) (fun k => k = KSm2 x y) Hf).
+    + split; [intros (kc & k & A & B & ->); eauto|intros (kc & A & B); eauto].
+    + intros k. rewrite GMX509KeyPairsSingle_sm2_iff. apply HQ.
+    + discriminate.
+Qed.
